@@ -603,6 +603,10 @@ class JournalStorageReplayResult:
 
         state = TrialState(log["state"])
         if state == self._trials[trial_id].state and state == TrialState.RUNNING:
+            # Reject the operation as the trial is already running. The issuer did not win this
+            # request, so it must be answered ``False`` even if it claimed the trial earlier.
+            if self._is_issued_by_this_worker(log):
+                self._worker_id_to_owned_trial_id.pop(self.worker_id, None)
             return
 
         trial = copy.copy(self._trials[trial_id])
